@@ -91,7 +91,7 @@ class Model:
                 import warnings
                 with warnings.catch_warnings():
                     warnings.simplefilter("ignore", SyntaxWarning)
-                    tree = ast.parse(src, filename=path)
+                    tree = _canonicalise(ast.parse(src, filename=path))
             except SyntaxError as e:
                 raise AnalysisError(f"unit {path} does not parse: {e}")
             m = Module(name, path, src, tree)
@@ -251,6 +251,36 @@ class Model:
         for q, f in self.functions.items():
             out.append(f)
         return out
+
+
+class _Canon(ast.NodeTransformer):
+    """Syntactic sugar is removed once, when a module is loaded, so that every rule sees one spelling:
+         x: T = v          ->  x = v            (annotated assignment with a value)
+         x is None         ->  x == None        (and `is not` -> `!=`), only against the literal None
+       Positions are kept, so messages still point at the original lines."""
+
+    def visit_AnnAssign(self, node):
+        self.generic_visit(node)
+        if node.value is None:
+            return ast.copy_location(ast.Pass(), node)
+        return ast.copy_location(ast.Assign(targets=[node.target], value=node.value), node)
+
+    def visit_Compare(self, node):
+        self.generic_visit(node)
+        ops = []
+        for op, c in zip(node.ops, node.comparators):
+            if isinstance(c, ast.Constant) and c.value is None and isinstance(op, (ast.Is, ast.IsNot)):
+                ops.append(ast.Eq() if isinstance(op, ast.Is) else ast.NotEq())
+            else:
+                ops.append(op)
+        node.ops = ops
+        return node
+
+
+def _canonicalise(tree):
+    tree = _Canon().visit(tree)
+    ast.fix_missing_locations(tree)
+    return tree
 
 
 def norm(node: ast.AST) -> str:
